@@ -41,7 +41,7 @@ pub static SIMS: &[SimDef] = &[SimDef {
     prop: "C16",
     run: sim_arena::run,
     about: "values sharing a parsed arena under clone / take / insert / send / drop orders across 1-3 threads",
-    enumerate: None,
+    enumerate: Some(sim_arena::enumerate_drop_orders),
 }, SimDef {
     name: "lazy",
     prop: "C13",
